@@ -1,22 +1,27 @@
 #!/bin/bash
-# tools/seedall.sh [outfile]: run every kept seed against its own property's quick check (scratch copy of /repo);
+# tools/seedall.sh [outfile] [jobs]: run every kept seed against its own property's quick check (scratch copy of /repo);
 # writes a markdown table (default seeded/RESULTS.md).  A seed whose patch no longer applies is reported as such.
 cd "$(dirname "$0")/.."
 out=${1:-seeded/RESULTS.md}
-tmp=$(mktemp)
-echo "| seed | property | verdict | failed obligations (first 3) | replay found by native search |" > $tmp
-echo "|---|---|---|---|---|" >> $tmp
-for d in seeded/C*-*/; do
+jobs=${2:-4}
+tmpd=$(mktemp -d)
+one() {
+  d=$1; tmpd=$2
   s=$(basename $d); c=${s%-*}
   res=$(tools/seedtest.sh $d/patch.diff $c 2>&1)
-  if echo "$res" | grep -q "patch failed"; then verdict="patch does not apply"; 
-  elif echo "$res" | grep -q "^VIOLATION"; then verdict="VIOLATION"; 
+  if echo "$res" | grep -q "patch failed"; then verdict="patch does not apply";
+  elif echo "$res" | grep -q "^VIOLATION"; then verdict="VIOLATION";
   elif echo "$res" | grep -q "UNDECIDED"; then verdict="UNDECIDED (exit 2)";
   elif echo "$res" | grep -q "CHECKER-ERROR"; then verdict="CHECKER-ERROR (exit 3)";
   else verdict="MISSED"; fi
   obs=$(echo "$res" | grep "failed-obligation" | head -3 | sed 's/ *failed-obligation //' | tr '\n' ';' | sed 's/|/\\|/g')
   nat=$(echo "$res" | grep "^VIOLATION" | head -1 | grep -q "no-failing-input-found" && echo "no" || (echo "$res" | grep -q "^VIOLATION" && echo "yes" || echo "-"))
-  echo "| $s | $c | $verdict | $obs | $nat |" >> $tmp
+  echo "| $s | $c | $verdict | $obs | $nat |" > $tmpd/$s.row
   echo "$s $verdict"
-done
-mv $tmp $out
+}
+export -f one
+ls -d seeded/C*-*/ | xargs -P $jobs -I{} bash -c 'one {} '"$tmpd"
+{ echo "| seed | property | verdict | failed obligations (first 3) | replay found by native search |"
+  echo "|---|---|---|---|---|"
+  cat $(ls $tmpd/*.row | sort -V); } > $out
+rm -rf $tmpd
